@@ -1,12 +1,12 @@
-\* directed, 3 nodes without self-loops, instants 0..1: 4096 graphs
+\* ACCUMULATIVE undirected graphs, 3 nodes, add instants 0..2: 512 add sets x all (u, v, window)
 SPECIFICATION Spec
 CONSTANTS
   PNodes <- PN3
-  PTMax = 1
-  PDir = TRUE
+  PTMax = 2
+  PDir = FALSE
   PLoops = FALSE
   PKF <- PathKF
-  PAcc = FALSE
+  PAcc = TRUE
   PSparse = FALSE
 INVARIANT InvPaths
 INVARIANT InvValid
